@@ -137,6 +137,35 @@ func c09Check(c c09Case, rec *evid.Recorder) *Fail {
 					lastCR = false
 				}
 			}
+		case "fill":
+			// record mappings until exactly op.N have been recorded in total (block
+			// sizes, table growth steps), then look at the result
+			for k := 0; len(maps) < op.N; k++ {
+				if k%7 == 6 {
+					m.AdvanceLine()
+					genLine++
+					genCol = 0
+				} else {
+					m.AdvanceColumn(1 + k%3)
+					genCol += 1 + k%3
+				}
+				if k%4 == 1 {
+					name := fmt.Sprintf("f%d", k%11)
+					m.AddNamedMapping(k%13, k%29, name)
+					if _, ok := nameIdx[name]; !ok {
+						nameIdx[name] = len(names)
+						names = append(names, name)
+					}
+					maps = append(maps, c09Mapping{genLine, genCol, k % 13, k % 29, name, true})
+				} else {
+					m.AddMapping(k%13, k%29)
+					maps = append(maps, c09Mapping{genLine, genCol, k % 13, k % 29, "", false})
+				}
+			}
+			lastCR = false
+			if f := verify(i); f != nil {
+				return f
+			}
 		case "emit":
 			if f := verify(i); f != nil {
 				return f
@@ -231,6 +260,13 @@ func c09Gen(t *rapid.T, rec *evid.Recorder) c09Case {
 			ops = append(ops, c09Op{Op: "line"})
 		default:
 			ops = append(ops, c09Op{Op: "emit"})
+		}
+	}
+	if pool > 0 && r.Intn(3, "fill") == 0 {
+		// bring the number of recorded mappings to a round figure, look, go on
+		for k, m := 0, 1+r.Intn(2, "nfill"); k < m; k++ {
+			target := []int{255, 256, 257, 1023, 1024, 2047, 2048, 2049, 4096, 8192}[r.Intn(10, "filltarget")]
+			ops = append(ops, c09Op{Op: "fill", N: target}, c09Op{Op: "map", Line: r.Intn(9, "l"), Col: r.Intn(9, "c")}, c09Op{Op: "emit"})
 		}
 	}
 	for _, o := range ops {
